@@ -12,6 +12,7 @@ import EPV.Gen.EosIdeal_dP_drho
 import EPV.Gen.EosIdeal_dP_de
 import EPV.Spec.EOS
 import EPV.Tactics
+import EPV.Lemmas.Bridge.EosTac
 
 set_option linter.all false
 
@@ -36,11 +37,11 @@ theorem ideal_inverse (γ ρ : ℝ) (hγ : γ ≠ 1) (hρ : ρ ≠ 0) : (idealEO
   have h1 : γ - 1 ≠ 0 := sub_ne_zero.mpr hγ
   constructor
   · intro P
-    simp only [idealEOS, epv_tree, epv_cond, epv_leaf, hγ, hρ, if_false]
-    field_simp
+    simp only [idealEOS]
+    epv_eos_eq
   · intro e
-    simp only [idealEOS, epv_tree, epv_cond, epv_leaf, hγ, hρ, if_false]
-    field_simp
+    simp only [idealEOS]
+    epv_eos_eq
 
 /-- `de_drho`, `de_dP` are the partial derivatives of `e(ρ, P)` -/
 theorem ideal_energy_derivs (γ ρ P : ℝ) (hγ : γ ≠ 1) (hρ : ρ ≠ 0) : (idealEOS γ).EnergyDerivsAt ρ P := by
@@ -48,35 +49,36 @@ theorem ideal_energy_derivs (γ ρ P : ℝ) (hγ : γ ≠ 1) (hρ : ρ ≠ 0) : 
   constructor
   · have hev : (fun r => EosIdeal_e.e { gamma := γ } r P) =ᶠ[nhds ρ] fun r => EosIdeal_e.L2.e { gamma := γ } r P := by
       filter_upwards [isOpen_ne.mem_nhds hρ] with r hr
-      simp only [epv_tree, epv_cond, hγ, hr, if_false]
-    refine ((EosIdeal_e.L2.e_hasDerivAt_rho { gamma := γ } ρ P (mul_ne_zero hρ h1)).congr_of_eventuallyEq hev).congr_deriv ?_
-    simp only [idealEOS, epv_tree, epv_cond, epv_deriv, epv_leaf, hγ, hρ, if_false]
-    field_simp
-    ring
+      epv_eos_at_leaf
+    epv_eos_have_cert hd : EosIdeal_e.L2.e_hasDerivAt_rho { gamma := γ } ρ P
+    refine (hd.congr_of_eventuallyEq hev).congr_deriv ?_
+    simp only [idealEOS]
+    epv_eos_eq
   · have hev : (fun q => EosIdeal_e.e { gamma := γ } ρ q) = fun q => EosIdeal_e.L2.e { gamma := γ } ρ q := by
       funext q
-      simp only [epv_tree, epv_cond, hγ, hρ, if_false]
+      epv_eos_at_leaf
     simp only [idealEOS]
     rw [hev]
-    refine (EosIdeal_e.L2.e_hasDerivAt_pres { gamma := γ } ρ P).congr_deriv ?_
-    simp only [epv_tree, epv_cond, epv_deriv, epv_leaf, hγ, hρ, if_false]
+    epv_eos_have_cert hd : EosIdeal_e.L2.e_hasDerivAt_pres { gamma := γ } ρ P
+    refine hd.congr_deriv ?_
+    epv_eos_eq
 
 /-- `dP_drho`, `dP_de` are the partial derivatives of `P(ρ, e)` (no density guard: `P` has none) -/
 theorem ideal_pressure_derivs (γ ρ e : ℝ) (hγ : γ ≠ 1) : (idealEOS γ).PressureDerivsAt ρ e := by
   have hev : EosIdeal_P.Pfun { gamma := γ } = EosIdeal_P.L1.Pfun { gamma := γ } := by
     funext r q
-    simp only [epv_tree, epv_cond, hγ, if_false]
+    epv_eos_at_leaf
   constructor
   · simp only [idealEOS]
     rw [hev]
-    refine (EosIdeal_P.L1.Pfun_hasDerivAt_rho { gamma := γ } ρ e).congr_deriv ?_
-    simp only [epv_tree, epv_cond, epv_deriv, epv_leaf, hγ, if_false]
-    ring
+    epv_eos_have_cert hd : EosIdeal_P.L1.Pfun_hasDerivAt_rho { gamma := γ } ρ e
+    refine hd.congr_deriv ?_
+    epv_eos_eq
   · simp only [idealEOS]
     rw [hev]
-    refine (EosIdeal_P.L1.Pfun_hasDerivAt_sie { gamma := γ } ρ e).congr_deriv ?_
-    simp only [epv_tree, epv_cond, epv_deriv, epv_leaf, hγ, if_false]
-    ring
+    epv_eos_have_cert hd : EosIdeal_P.L1.Pfun_hasDerivAt_sie { gamma := γ } ρ e
+    refine hd.congr_deriv ?_
+    epv_eos_eq
 
 /-- non-vacuity at the class default γ = 5/3 and the Noh initial density ρ = 1 -/
 example : (idealEOS (5/3)).InverseAt 1 ∧ (idealEOS (5/3)).EnergyDerivsAt 1 0 ∧ (idealEOS (5/3)).PressureDerivsAt 1 0 :=
